@@ -85,12 +85,15 @@ def handmade():
     B, E = dict(name="BeginBlock", tid="", how=""), dict(name="EndBlock", tid="", how="")
     def tx(tid, how="next"):
         return dict(name="Tx", tid=tid, how=how)
-    return [
+    h = [
         [B, tx("deploy"), tx("xfer"), tx("stake"), tx("vault"), E, B, tx("callok"), tx("callfail"), tx("name"), tx("xfer3"), tx("vote1"), E,
          B, tx("callfail3"), tx("stake3"), tx("fdok"), tx("fdfail"), tx("fdfail", "replay"), tx("fdfail3"), tx("xfer", "replay"), tx("forged"), tx("foreign"), tx("over"), tx("callsys"), tx("fdsys"), E, B, tx("xfercb"), tx("unstake"), tx("name3"), tx("fdfail", "replay"), tx("callfail", "replay"), tx("fdok", "replay"), E],
         [B, tx("xfer"), tx("xfer", "dup"), tx("xfer", "gap"), tx("stakelow"), tx("xferself"), E, B, tx("xfer"), tx("xfer", "replay"), tx("forged3"), E, B, E],
         [B, tx("vault"), tx("stake"), tx("stake3"), E, B, tx("vote1"), tx("vote3"), tx("vote1"), E, B, E, B, tx("deploy"), tx("callfail"), tx("callok"), tx("callok", "replay"), E, B, tx("callfail3"), tx("callfail", "gap"), E],
     ]
+    # the harness runs behaviour i under regime i mod len(REGIMES): the first scenario (every transaction kind, failures,
+    # replays, system failures) goes first, once per regime
+    return [h[0]] * len(REGIMES) + h[1:]
 
 
 def run_ledger(c, pid, behs, nshards=6, validators=2, gomaxprocs=None, timeout=1800, tag="L", blocks_out=False, blocks_in=None):
